@@ -135,6 +135,17 @@ func scenarios(u *universe) []scenario {
 			at(5, entry{data: encProto(structs.PeeringTerminateByIDType, &pbpeering.PeeringTerminateByIDRequest{ID: u.peerIDs[1]}), kind: "peering-terminate", desc: "peering-terminate " + u.peerIDs[1]}),
 			at(6, entry{data: encProto(structs.PeeringDeleteType, &pbpeering.PeeringDeleteRequest{Name: "peer2"}), kind: "peering-delete", desc: "peering-delete peer2"}),
 			at(8, sPeering(u.peerIDs[1], "peer2", true, dialSecrets[2]))}},
+		// a service-intentions entry with three sources, then `intention delete web db` (by name, not the last source):
+		// the late-persist monitor snapshots before the delete and persists after it
+		{"late-persist-intention-source-delete", []entry{
+			at(2, entry{data: enc(structs.SystemMetadataRequestType, &structs.SystemMetadataRequest{Datacenter: "dc1", Op: structs.SystemMetadataUpsert,
+				Entry: &structs.SystemMetadataEntry{Key: structs.SystemMetadataIntentionFormatKey, Value: structs.SystemMetadataIntentionFormatConfigValue}}), kind: "system-metadata", desc: "intention-format=config-entry"}),
+			at(3, sCfg(&structs.ServiceIntentionsConfigEntry{Kind: structs.ServiceIntentions, Name: "db", Sources: []*structs.SourceIntention{
+				{Name: "web", Action: structs.IntentionActionAllow}, {Name: "api", Action: structs.IntentionActionDeny}, {Name: "web-v1", Action: structs.IntentionActionAllow}}}, "service-intentions db [web api web-v1]")),
+			at(5, entry{data: enc(structs.IntentionRequestType, &structs.IntentionRequest{Datacenter: "dc1", Op: structs.IntentionOpDelete,
+				Mutation: &structs.IntentionMutation{Destination: structs.NewServiceName("db", nil), Source: structs.NewServiceName("web", nil)}}), kind: "intention-mutation", desc: "ixn-mutation delete web->db (by name)"}),
+			at(6, entry{data: enc(structs.IntentionRequestType, &structs.IntentionRequest{Datacenter: "dc1", Op: structs.IntentionOpDelete,
+				Mutation: &structs.IntentionMutation{Destination: structs.NewServiceName("db", nil), Source: structs.NewServiceName("api", nil)}}), kind: "intention-mutation", desc: "ixn-mutation delete api->db (by name)"})}},
 		{"node-locality", []entry{at(6, sReg(structs.RegisterRequest{Node: "n1", Address: "127.0.0.1", Locality: &structs.Locality{Region: "us-east-1", Zone: "a"}}, "register n1 with locality"))}},
 		{"kind-service-names-index", []entry{
 			at(1, sReg(structs.RegisterRequest{Node: "n1", Address: "127.0.0.1", Service: svc("web")}, "register n1 web")),
